@@ -757,6 +757,20 @@ def main(run):
                 known.append({"what": why, "replay": {"scenario": sc, "finding_key": sc["finding_key"]}})
             elif why:
                 viols.append({"what": why, "replay": {"scenario": sc}})
+    # the maker inside a reused XMLFormatter (prepare() on trees parsed once)
+    from harness import xmlfmt_corr
+    chains = [list(c) for c in xmlfmt_corr.CHAIN_FIXED] + [xmlfmt_corr.gen_chain(rng) for _ in range(80 if run.tier == "quick" else 800)]
+    nchain = 0
+    for revs in chains:
+        if any("<!--" in r for r in revs):
+            continue
+        for cfg in xmlfmt_corr.CHAIN_CFGS[:3]:
+            nchain += 1
+            why = formatter_chain_oracle(revs, cfg)
+            if why:
+                viols.append({"what": why, "replay": {"kind": "formatter-chain", "revisions": revs,
+                                                      "cfg": {k: (list(v) if isinstance(v, tuple) else v) for k, v in cfg.items()}}})
+    run.coverage["formatter_chains"] = nchain
     viols.sort(key=lambda v: len(json.dumps(v["replay"])))
     for v in known[:1]:
         run.violation(v["what"], v["replay"])
@@ -850,8 +864,46 @@ def main(run):
     lib.conclude(run, ok, pinfo, corr, viols, deeper)
 
 
+def formatter_chain_oracle(revs, cfg):
+    """The maker as XMLFormatter uses it: ONE formatter, prepare() called for (v1, v2), (v1, v3), ... on trees parsed
+    once.  After every prepare(): an inline element that is identical in the two documents has the same placeholder
+    text in both, and restoring every tree seen so far (on copies) gives the original documents (comments removed)."""
+    from copy import deepcopy
+    from lxml import etree
+    from xmldiff import formatting as F
+    f = F.XMLFormatter(**cfg)
+    trees = [etree.fromstring(r) for r in revs]
+
+    def canon_x(e):
+        return (e.tag, tuple(sorted(e.attrib.items())), e.text or "", tuple((canon_x(c), c.tail or "") for c in e if isinstance(c.tag, str)))
+
+    origs = []
+    for r in revs:
+        o = etree.fromstring(r)
+        origs.append(canon_x(o))
+    for k in range(1, len(trees)):
+        try:
+            f.prepare(trees[0], trees[k])
+        except Exception as ex:  # noqa
+            return "XMLFormatter.prepare raised %s: %s" % (type(ex).__name__, ex)
+        for i in [0] + list(range(1, k + 1)):
+            c = deepcopy(trees[i])
+            try:
+                f.placeholderer.undo_tree(c)
+            except Exception as ex:  # noqa
+                return "undo_tree on revision %d (substituted by an earlier prepare() of the same formatter) raised %s: %s" % (i + 1, type(ex).__name__, ex)
+            if canon_x(c) != origs[i]:
+                return "restoring revision %d after %d prepare() calls on one formatter gives %s, the document was %s" % (
+                    i + 1, k, etree.tostring(c).decode()[:300], revs[i][:300])
+    return None
+
+
 def replay(run, path):
     d = json.load(open(path))
+    if d.get("kind") == "formatter-chain":
+        why = formatter_chain_oracle(d["revisions"], {k: (tuple(v) if isinstance(v, list) else v) for k, v in d["cfg"].items()})
+        print("->", why or "property holds on this input")
+        return 1 if why else 0
     sc = d.get("scenario")
     if not sc:
         print("replay names a broken tie, not an input:", d.get("broken")); return 1
